@@ -193,7 +193,7 @@ class C02(Campaign):
         extra = []
         for o in sc["ops"][1:]:
             if o["op"] == "send" and new_events and rnd.random() < 0.4:
-                extra.append(dict(o, event=rnd.choice(new_events), style="send"))
+                extra.append({"op": "send", "inst": o["inst"], "event": rnd.choice(new_events), "style": "send"})
             extra.append(o)
         sc["ops"] = sc["ops"][:1] + extra
         for g in sc["gv"].values():
